@@ -723,7 +723,7 @@ def _pick(lst, n, seed):
     if len(lst) <= n:
         return list(lst)
     step = (len(lst) - 1) / float(n - 1)
-    idx = sorted(set(int(round((i * step + seed) % len(lst))) if 0 < i < n - 1 else (0 if i == 0 else len(lst) - 1)
+    idx = sorted(set(int(round((i * step + seed) % len(lst))) % len(lst) if 0 < i < n - 1 else (0 if i == 0 else len(lst) - 1)
                      for i in range(n)))
     return [lst[i] for i in idx]
 
